@@ -25,7 +25,8 @@ from .refsem import Arr, LooseV, PName, Sym
 
 
 # symbolic comparisons for which no generic point could be evaluated (counted, never a verdict)
-UNCHECKABLE = [0]
+UNCHECKABLE = [0]  # comparisons with no evaluable point
+COMPLEX_PROBES = [0]
 
 
 def _rrt():
@@ -613,6 +614,30 @@ def diff_ref_value(r, x, path, out, seed="ref"):
                 UNCHECKABLE[0] += 1
             elif bad > good:
                 out.append((path, "value:regref", repr(worst[1]), "%r at %r" % (worst[2], {k[1]: v.v for k, v in worst[0].items()})))
+                return
+            # complex measurement values (heterodyne outcomes are complex numbers).  Fractional powers have branch cuts,
+            # near which neither side's rounding is bounded by the propagated error, so this probe only speaks when at
+            # least three points could be evaluated and the transform is wrong at every one of them
+            cgood = cbad = 0
+            cworst = None
+            for i in range(6):
+                rr = random.Random("%s/%s/cplx/%d" % (seed, path, i))
+                pt = {lf: V("c", complex(rr.choice([-1, 1]) * rr.uniform(0.3, 3.0), rr.choice([-1, 1]) * rr.uniform(0.3, 3.0))) for lf in sorted(leaves)}
+                try:
+                    ref = r.evaluate(pt)
+                    got = complex(x.func(*[pt[("reg", n)].v for n in listed]))
+                except Exception:  # noqa: not evaluable here on one side or the other
+                    continue
+                if not (math.isfinite(got.real) and math.isfinite(got.imag)):
+                    continue
+                if abs(got - complex(ref.v)) <= max(refnum.tolerance(ref), 1e-9 * abs(complex(ref.v))):
+                    cgood += 1
+                else:
+                    cbad += 1
+                    cworst = (pt, ref, got)
+            COMPLEX_PROBES[0] += cgood + cbad
+            if cbad >= 3 and cgood == 0:
+                out.append((path, "value:regref-at-complex-values", repr(cworst[1]), "%r at %r" % (cworst[2], {k[1]: v.v for k, v in cworst[0].items()})))
             return
         if kx != "sym":
             out.append((path, "kind:sym!=%s" % kx, refsem.show_tree(r.tree), show(x)))
